@@ -43,6 +43,11 @@ TYPE_RULES = [
     ("array-dims-duplicate-name", True, "'int[x, x]'", ""),
     ("array-dim-bad-name", True, "'int[BadDim:2]'", ""),
     ("vector-of-stream", True, "!vector {items: !stream {items: int}}", ""),
+    ("stream-of-stream", True, "!stream {items: !stream {items: int}}", ""),
+    ("map-of-stream", True, "!map {keys: string, values: !stream {items: int}}", ""),
+    ("map-key-record-in-nested-map", True, "!map {keys: string, values: !map {keys: HPlain, values: int}}", ""),
+    ("map-key-map", True, "!map {keys: !map {keys: string, values: int}, values: int}", ""),
+    ("union-alias-of-vector-case-needs-tag", True, "[HVecAlias, !vector {items: float}]", ""),
 ]
 HELPERS = """
 HWrap<T>: !record
